@@ -90,6 +90,11 @@ static void jfill(uint8_t *buf, uint32_t n, uint32_t id)
 		b[i] = (uint8_t) (i * 29u + id);
 	for (uint32_t i = 0; i < n; i++)
 		buf[i] = a[i % 251] ^ b[i % 256];
+	/* every third jumbo ends in a run of zero bytes (holes, sparse copies) */
+	if (id % 3 == 0 && n > 8) {
+		uint32_t z = n - 8 < 6000 ? n - 8 : 6000;
+		memset(buf + n - z, 0, z);
+	}
 	if (n >= 4)
 		memcpy(buf, &id, 4);
 }
